@@ -21,6 +21,8 @@ from lbry.conf import Config
 from lbry.extras.daemon.storage import SQLiteStorage
 from lbry.blob.blob_manager import BlobManager
 from lbry.blob.disk_space_manager import DiskSpaceManager
+from lbry.blob.blob_file import BlobFile
+from lbry.stream.descriptor import StreamDescriptor
 
 import vlib
 
@@ -184,29 +186,36 @@ def resolve_limit(rng_choice, used):
     raise ValueError(kind)
 
 
+async def _build_real(loop, d, bd, st, bm, spec):
+    """state produced by the application's own code paths: StreamDescriptor.create_stream (publishing), storage.store_stream,
+    save_published_file, update_blob_ownership (a download is a stream whose ownership is cleared, as upstream's
+    integration test does), BlobFile.create_from_unencrypted + blob_completed for network-seeded blobs"""
+    async def settle():
+        for _ in range(50):
+            pend = [t for t in asyncio.all_tasks() if t is not asyncio.current_task()]
+            if not pend:
+                break
+            await asyncio.wait(pend, timeout=5)
+    for i, sp in enumerate(spec['streams']):
+        path = os.path.join(d, 'src%d' % i)
+        with open(path, 'wb') as f:
+            f.write(bytes([i + 1]) * sp['size'])
+        descriptor = await StreamDescriptor.create_stream(loop, bd, path, blob_completed_callback=bm.blob_completed)
+        await settle()
+        await st.store_stream(bm.get_blob(descriptor.sd_hash), descriptor)
+        if sp['file']:
+            await st.save_published_file(descriptor.stream_hash, 'src%d' % i, d, 0)
+        await st.update_blob_ownership(descriptor.sd_hash, sp['mine'])
+        os.remove(path)
+    for j, size in enumerate(spec['net']):
+        await BlobFile.create_from_unencrypted(loop, bd, bytes([j + 1]) * 16, bytes([j + 7]) * 16, bytes([j]) * size, 0,
+                                               1600000000 + j, False, bm.blob_completed)
+    await settle()
+
+
 async def _run_impl(d, case):
     loop = asyncio.get_running_loop()
-    db, mode = case['db'], case.get('added_mode', 'int')
-    ids = set()
-    for b in db['blobs']:
-        ids.add(b[0])
-    for sh, bh in db['sblobs']:
-        ids.update((sh, bh))
-    for sh, sd in db['streams']:
-        ids.update((sh, sd))
-    ids.update(db['files'])
-    ids.update(db['disk'])
-    for o in case['ops']:
-        if o[0] == 'add':
-            ids.add(o[1][0])
-    unhex = {hx(i): i for i in ids}
-    if mode == 'float':
-        def fwd(a): return FLOAT_BASE + a / 1000.0
-        def back(v): return int(round((v - FLOAT_BASE) * 1000))
-    else:
-        def fwd(a): return a
-        def back(v): return v
-
+    db, mode = case.get('db'), case.get('added_mode', 'int')
     conf = Config(data_dir=d, wallet_dir=d, download_dir=d, config=os.path.join(d, 'c.yml'))
     dbpath = os.path.join(d, 'lbrynet.sqlite')
     st = SQLiteStorage(conf, dbpath)
@@ -216,28 +225,72 @@ async def _run_impl(d, case):
     bm = BlobManager(loop, bd, st, conf)
     dsm = DiskSpaceManager(conf, st, bm)
     lengths = {}
+    derived = None
+    if case.get('real') and db is None:
+        await _build_real(loop, d, bd, st, bm, case['real'])
+        con = sqlite3.connect(dbpath)
+        unhex = {}
+        try:
+            for q in ('select blob_hash from blob order by rowid', 'select stream_hash from stream order by rowid',
+                      'select sd_hash from stream order by rowid', 'select blob_hash from stream_blob order by rowid',
+                      'select stream_hash from stream_blob order by rowid', 'select stream_hash from file order by rowid'):
+                for (h,) in con.execute(q):
+                    if h is not None and h not in unhex:
+                        unhex[h] = len(unhex) + 1
+            times = sorted({a for (a,) in con.execute('select added_on from blob')})
+        finally:
+            con.close()
+        rank = {a: i + 1 for i, a in enumerate(times)}
 
-    def ins(t):
-        for h, ln, a, mine, fin in db['blobs']:
-            t.execute("insert into blob values (?,?,0,0,?,0,0,?,?)",
-                      (hx(h), ln, 'finished' if fin else 'pending', fwd(a), 1 if mine else 0))
-            lengths[h] = ln
+        def fwd(a): return a
+        def back(v): return rank[v]
+        s0 = snapshot(dbpath, bd, unhex, back)
+        derived = {'blobs': [list(b) for b in s0.blobs], 'sblobs': [list(x) for x in s0.sblobs],
+                   'streams': [list(x) for x in s0.streams], 'files': list(s0.files), 'disk': list(s0.disk)}
+        db = derived
+    else:
+        ids = set()
+        for b in db['blobs']:
+            ids.add(b[0])
+        for sh, bh in db['sblobs']:
+            ids.update((sh, bh))
         for sh, sd in db['streams']:
-            t.execute("insert into stream values (?,?,?,?,?)", (hx(sh), hx(sd), '00', '6e', '6e'))
-        for pos, (sh, bh) in enumerate(db['sblobs']):
-            t.execute("insert into stream_blob values (?,?,?,?)", (hx(sh), hx(bh), pos, '00' * 16))
-        for sh in db['files']:
-            t.execute("insert into file values (?, NULL, NULL, NULL, 0.0, 'running', 0, NULL, 5)", (hx(sh),))
-    await st.db.run_with_foreign_keys_disabled(ins)
+            ids.update((sh, sd))
+        ids.update(db['files'])
+        ids.update(db['disk'])
+        for o in case['ops']:
+            if o[0] == 'add':
+                ids.add(o[1][0])
+        unhex = {hx(i): i for i in ids}
+        if mode == 'float':
+            def fwd(a): return FLOAT_BASE + a / 1000.0
+            def back(v): return int(round((v - FLOAT_BASE) * 1000))
+        else:
+            def fwd(a): return a
+            def back(v): return v
+
+        def ins(t):
+            for h, ln, a, mine, fin in db['blobs']:
+                t.execute("insert into blob values (?,?,0,0,?,0,0,?,?)",
+                          (hx(h), ln, 'finished' if fin else 'pending', fwd(a), 1 if mine else 0))
+                lengths[h] = ln
+            for sh, sd in db['streams']:
+                t.execute("insert into stream values (?,?,?,?,?)", (hx(sh), hx(sd), '00', '6e', '6e'))
+            for pos, (sh, bh) in enumerate(db['sblobs']):
+                t.execute("insert into stream_blob values (?,?,?,?)", (hx(sh), hx(bh), pos, '00' * 16))
+            for sh in db['files']:
+                t.execute("insert into file values (?, NULL, NULL, NULL, 0.0, 'running', 0, NULL, 5)", (hx(sh),))
+        await st.db.run_with_foreign_keys_disabled(ins)
 
     def mkfile(h, ln):
         with open(os.path.join(bd, hx(h)), 'wb') as f:
             f.truncate(ln if 0 < ln <= 4 * MIB else 1)
-    for h in db['disk']:
-        mkfile(h, lengths.get(h, 1))
-    for h in case.get('loaded', []):
-        if h in db['disk']:
-            bm.get_blob(hx(h))
+    if derived is None:
+        for h in db['disk']:
+            mkfile(h, lengths.get(h, 1))
+        for h in case.get('loaded', []):
+            if h in db['disk']:
+                bm.get_blob(hx(h))
 
     passes = []          # every _clean call, monitored
     captured = []
@@ -273,6 +326,12 @@ async def _run_impl(d, case):
                 'blobs': [list(b) for b in s.blobs], 'disk': s.disk}
 
     initial = await observe()
+    # sqlite's order among rows with equal ORDER BY keys (realistic: every blob of one stream shares added_on) is
+    # unspecified; the model breaks ties by table order, so the harness hands the model a table order that agrees
+    # with the order sqlite showed on the initial state (never compared itself)
+    init_cands = []
+    for net in (False, True):
+        init_cands += [unhex[h] for h, _ln, _a in await st.get_stored_blobs(is_mine=False, is_network_blob=net)]
     steps, resolved = [], []
     for o in case['ops']:
         n0 = len(passes)
@@ -313,6 +372,7 @@ async def _run_impl(d, case):
             resolved.append(['add', [h, ln, a, mine, True]])
         ob = await observe()
         ob['deleted'] = [p['deleted'] for p in passes[n0:]]
+        ob['tie'] = any(has_ties(p['cands'], p['net']) for p in passes[n0:])
         if o[0] == 'pass':
             ob['cands'] = passes[-1]['cands']
         snap = snapshot(dbpath, bd, unhex, back)
@@ -320,7 +380,7 @@ async def _run_impl(d, case):
         steps.append(ob)
     bm.stop()
     await st.close()
-    return {'initial': initial, 'steps': steps}, resolved, passes
+    return {'initial': initial, 'steps': steps, 'init_cands': init_cands, 'derived_db': derived}, resolved, passes
 
 
 def run_impl(case):
@@ -343,25 +403,23 @@ def run_impl(case):
 # ----------------------------------------------------------------------------------------------
 
 def has_ties(rows, net):
-    """two different blobs with the same ORDER BY key in one query: sqlite's order among them is unspecified"""
+    """two different blobs with the same ORDER BY key in one query: sqlite's order among them is unspecified
+    (content: the key is (added_on, length) for stream blobs but added_on alone for descriptors: added_on alone is
+    used here, which only ever flags more ties)"""
     seen = {}
     for h, ln, a in rows:
-        k = (ln, a) if net else a      # content: (added, len) then sd: added; use added alone -> conservative
+        k = (ln, a) if net else a
         if k in seen and seen[k] != h:
             return True
         seen.setdefault(k, h)
     return False
 
 
-def canon_step(ob, keys_only=False):
+def canon_step(ob):
     out = {'usage_mb': {k: int(v) for k, v in ob['usage_mb'].items()},
-           'usage_bytes': {k: int(v) for k, v in ob['usage_bytes'].items()}}
-    if keys_only:
-        out['n_blobs'] = len(ob['blobs'])
-        out['n_disk'] = len(ob['disk'])
-    else:
-        out['blobs'] = sorted([int(b[0]), int(b[1]), int(b[2]), bool(b[3]), bool(b[4])] for b in ob['blobs'])
-        out['disk'] = sorted(int(x) for x in ob['disk'])
+           'usage_bytes': {k: int(v) for k, v in ob['usage_bytes'].items()},
+           'blobs': sorted([int(b[0]), int(b[1]), int(b[2]), bool(b[3]), bool(b[4])] for b in ob['blobs']),
+           'disk': sorted(int(x) for x in ob['disk'])}
     if 'deleted' in ob:
         out['deleted'] = [[int(x) for x in dl] for dl in ob['deleted']]
     if 'cands' in ob:
@@ -384,10 +442,7 @@ def compare(run, case, impl, mod):
         if canon_eq(ci, cm):
             run.compare('C19.step', case, ci, cm)
             continue
-        net = case['ops'][i][1] if case['ops'][i][0] == 'pass' else None
-        tie = (has_ties(si.get('cands', []), bool(net)) if case['ops'][i][0] == 'pass'
-               else case['ops'][i][0] == 'clean' and case.get('ties'))
-        if not tie:
+        if not si.get('tie'):
             run.compare('C19.step', dict(case, step=i), ci, cm)
             return
         # ORDER BY tie: sqlite may return equal-key rows in any order (and the sd query does not even order by
@@ -539,6 +594,22 @@ def gen_ops(rng, db, nid):
     return ops
 
 
+def gen_real(rng):
+    sizes = [300000, 1100000, 1500000, 2097151, 2500000, 4194302, 4300000, 6500000]
+    streams = [{'size': rng.choice(sizes), 'mine': rng.random() < 0.35, 'file': rng.random() < 0.85}
+               for _ in range(rng.randrange(1, 5))]
+    net = [rng.choice([500000, 1100000, 2097151]) for _ in range(rng.randrange(0, 4))]
+    ops = []
+    for _ in range(rng.randrange(1, 4)):
+        if rng.random() < 0.6:
+            ops.append(['pass', rng.random() < 0.4, gen_limit(rng)])
+        else:
+            ops.append(['clean', gen_limit(rng), gen_limit(rng)])
+        if rng.random() < 0.6:
+            ops.append(['repeat'])
+    return {'real': {'streams': streams, 'net': net}, 'ops': ops}
+
+
 # ----------------------------------------------------------------------------------------------
 # one case
 # ----------------------------------------------------------------------------------------------
@@ -546,7 +617,14 @@ def gen_ops(rng, db, nid):
 def check_case(run, model, case, kind):
     impl, resolved, passes = run_impl(case)
     case = dict(case, ops=resolved, kind=kind)       # self-contained: every limit absolute, repeats expanded
-    mod = model.call('run', db=case['db'], ops=case['ops'])
+    if impl.get('derived_db') is not None:           # state built through the application's API: keep its row-level form
+        case = dict(case, db=impl['derived_db'], origin=case.get('real'))
+        case.pop('real', None)
+    pos = {}
+    for i, h in enumerate(impl['init_cands']):
+        pos.setdefault(h, i)
+    mdb = dict(case['db'], blobs=sorted(case['db']['blobs'], key=lambda b: pos.get(b[0], len(pos))))
+    mod = model.call('run', db=mdb, ops=case['ops'])
     any_del = any(p['deleted'] for p in passes)
     run.case(case, nontrivial=bool(case['db']['blobs']) and bool(passes))
     prev = None
@@ -597,7 +675,7 @@ def check_case(run, model, case, kind):
         return
     compare(run, case, impl, mod)
     # the whole history through one call of the extracted [run]
-    whole = model.call('run_whole', db=case['db'], ops=case['ops'])
+    whole = model.call('run_whole', db=mdb, ops=case['ops'])
     flat = [dl for s in mod['steps'] for dl in s['deleted']]
     run.compare('C19.run_whole', case, {'trace': flat, 'blobs': mod['steps'][-1]['blobs'] if mod['steps'] else mod['initial']['blobs']},
                 {'trace': whole['trace'], 'blobs': whole['blobs']})
@@ -641,9 +719,11 @@ def exhaustive_cases():
 def main(run):
     model = vlib.Model('C19')
     rng = run.rng
-    n_cases = vlib.scaled(run.tier, 700, 14000)
+    n_cases = vlib.scaled(run.tier, 600, 12000)
     max_blobs = vlib.scaled(run.tier, 30, 60)
-    run.rule = ('database states built row by row (tables blob, stream, stream_blob, file + blob files): streams that are '
+    run.rule = ('(a) states produced by the application itself: StreamDescriptor.create_stream + store_stream + '
+                'save_published_file + update_blob_ownership for 1..4 published / downloaded streams of 0.3..6.5 MB and 0..3 '
+                'network blobs written through BlobFile + blob_completed; (b) database states built row by row (tables blob, stream, stream_blob, file + blob files): streams that are '
                 'own / downloaded with file / downloaded without file, orphan network blobs, network sd blobs, own orphans; '
                 'sizes from profiles full(2 MiB) / sub-MiB / MiB edges +-1 / random <3 MiB / rare huge; pending rows, missing '
                 'files, blobs loaded in BlobManager; 25% of states deliberately outside the schema\'s normal shape (duplicate '
@@ -658,6 +738,9 @@ def main(run):
         for c in exhaustive_cases():
             check_case(run, model, c, 'exhaustive')
         run.exhaustive = True
+    for _ in range(vlib.scaled(run.tier, 25, 400)):
+        check_case(run, model, gen_real(rng), 'real-api')
+        run.count('state built through the application API')
     for _ in range(n_cases):
         small = rng.random() < 0.3
         db, loaded, ties, nid = gen_db(rng, 6 if small else max_blobs)
